@@ -178,3 +178,6 @@ func verifBlockUntil(cond func() bool) {
 
 // intrinsic: is the mutex at p write-locked right now.
 func verifMutexHeld(p interface{}) bool { return true }
+
+// intrinsic: virtual time passes (natively: nothing).
+func verifAdvanceClock(d time.Duration) {}
